@@ -14,6 +14,7 @@ EXPLANATION = (
     "min) and NaN scores return None before a candidate clone is emitted, result = take(count) of a descending sort, storage "
     "uses the for_storage config (exclude, floor 0.2), engine fallback = take(count) of the distance order; (5) RANK-KEY — the "
     "distance feeding the score must not be a lossy projection of the 256-bit XOR distance."
+    " (6) CLOSEST-ORDER — without trust selection the choice is the routing table's closest-node answer: C02's TOTAL-SCAN / ORDER obligations (all buckets scanned, ascending sort on the full 32-byte XOR distance, take(count)) are evaluated here too."
 )
 NOT_DECIDED = "ranking over all (distance, trust) float pairs beyond the projection check; timing of eviction w.r.t. lookups"
 ASSUMPTIONS = ["Vec::retain removes every matching element", "slice::sort_by is stable"]
